@@ -206,7 +206,7 @@ C13_ante(g, t, o) == (o.op = "PayAnte" /\ o.ok /\ t.n = g.n) =>
   /\ t.cw = 0 /\ t.roundPot = 0
 \* before the first betting round: the state in which the engine waits for "ready" on preflop
 \* with the blinds behind it (also reached when the engine skips the blind phase)
-BlindsBehind(g, t, o) == t.round = "preflop" /\ t.ev = "ReadyRequested" /\ g.ev # "ReadyRequested" /\ o.ok /\ t.n = g.n
+BlindsBehind(g, t, o) == t.round = "preflop" /\ t.ev = "ReadyRequested" /\ (g.round # "preflop" \/ g.ev # "ReadyRequested") /\ o.ok /\ t.n = g.n
 C13_blinds(g, t, o) == BlindsBehind(g, t, o) =>
   /\ \A i \in Seats(t) : t.P[i].pot = Min2(t.meta.ante, t.P[i].bankroll)
   /\ \A i \in Seats(t) : t.P[i].wager = Min2(Blind(t, i), t.P[i].init)
